@@ -5,7 +5,15 @@ Suite `udpshared` (C16, C15): several announce calls share one real `udptracker.
 UDP trackers on loopback.  Ops and observations: see `suite_udpshared.go`.
 
   `ann r= t= d= ev=` · `cancel r=` · `reply x=<c<d>|a<r>>:<kind>,…` · `wait` · `close`
-  → `done=<r>:<class>,… rx=<c<d>.<k>|a<r>.<k>:<ev>>,… rtx=<n> cn=<n> [nt=<n>]`
+  `pstart t= d=` · `pcomplete` · `pclose`   (one real `PeriodicalAnnouncer`, its calls are 100, 101, …)
+  → `done=<r>:<class>,… rx=<c<d>.<k>|a<r>.<k>:<ev>>,… rtx=<n> cn=<n> [nt=<n>] [pc=<r>,…]`
+
+The periodical announcer is a small automaton on top of the transport model: `pstart` announces
+`started`; a good reply makes it idle (the replies carry intervals ≥ 1000 s); every other outcome it
+did not cause itself (error reply, failed connect, `context.Canceled` from a connect another call
+had opened) makes it announce again (event `none`) after its back-off, within the same op;
+`pcomplete` cancels an announce in flight and announces `completed` (once); `pclose` / `close`
+cancel and stop.
 
 The model (`Rain.UdpShared.step`) is run on the same messages; transaction ids are the model's
 counter (the implementation's random ids never appear in an observation).  The observation is
@@ -26,6 +34,10 @@ alone does not count as leaving):
   twice); evidence=scheduled: more retransmission goroutines are alive than there are unanswered
   transactions plus answered connect transactions, i.e. an answered announce is still scheduled;
 * `C16 unexpected-result`   result outside the known classes (recovered panic, unknown error).
+* `C16 announce-not-retried`   the periodical announcer did not start the announce that has to follow
+  an announce that ended without a reply;
+* `C15 event-discipline`   announces of the periodical announcer as the tracker receives them: the
+  first says `started`, no later one does, `completed` at most once.
 -/
 namespace Driver.Suites.UdpShared
 open Driver Rain.UdpShared
@@ -45,6 +57,13 @@ structure DS where
   waited : Bool := false
   off : Bool := false
   shared : Bool := false                -- some call has waited behind another call's connect
+  pState : Nat := 0                     -- periodical announcer: 0 none, 1 contacting, 2 idle, 3 closed
+  pT : Nat := 0
+  pD : Nat := 0
+  pCur : Nat := 0
+  pK : Nat := 0
+  pDone : Bool := false                 -- `completed` has been announced
+  pCompletedSeen : Nat := 0             -- `completed` announces of the periodical announcer seen by the tracker
   tags : List String := []
 
 def addTag (d : DS) (t : String) : DS := if d.tags.contains t then d else { d with tags := t :: d.tags }
@@ -128,6 +147,34 @@ def feed (d : DS) (ins : List In) : DS × List (Nat × String) × List String :=
 def connectingCount (d : DS) : Nat :=
   (d.dests.filter fun dd => match d.m.conns dd with | some (.connecting ..) => true | _ => false).length
 
+/-- The announcer starts a call (ids 100, 101, …). -/
+def pCall (d : DS) (ev : String) : DS × List (Nat × String) × List String × Nat :=
+  let r := 100 + d.pK
+  let d := { d with evs := (r, ev) :: d.evs, pCur := r, pK := d.pK + 1, pState := 1 }
+  let queues := match d.m.conns d.pD with | some (.connecting ..) => true | _ => false
+  let d := if queues then { d with shared := true } else d
+  let (d, done, rx) := feed d [.request r d.pD]
+  (d, done, rx, r)
+
+/-- After the messages of an op: while the announcer's current call has ended without a reply (and
+not by the announcer's own cancellation) it announces again. -/
+def pSettle : Nat → DS → List (Nat × String) → List String → List Nat → DS × List (Nat × String) × List String × List Nat
+  | 0, d, done, rx, pcs => (d, done, rx, pcs)
+  | fuel + 1, d, done, rx, pcs =>
+    if d.pState ≠ 1 then (d, done, rx, pcs) else
+    match d.m.reqs d.pCur with
+    | some q =>
+      match q.result with
+      | none => (d, done, rx, pcs)
+      | some (.reply _ .good) => ({ d with pState := 2 }, done, rx, pcs)
+      | some res =>
+        if q.cancelled then (d, done, rx, pcs) else
+        let d := addTag d (if res = .canceled then "branch:periodic-retry-after-foreign-cancel" else "branch:periodic-retry-after-error")
+        let d := if res = .canceled then addTag d "nontrivial" else d
+        let (d, done', rx', r) := pCall d "none"
+        pSettle fuel d (done ++ done') (rx ++ rx') (pcs ++ [r])
+    | none => (d, done, rx, pcs)
+
 def render (d : DS) (done : List (Nat × String)) (rx : List String) (nt : Nat) : String :=
   let done := done.mergeSort (fun a b => a.1 ≤ b.1)
   let rx := rx.mergeSort strLe
@@ -155,6 +202,8 @@ structure OpCtx where
   newConnects : List (Nat × Bool) := []
   /-- calls whose announce transaction had been answered before this op -/
   answeredBefore : List Nat := []
+  /-- calls the periodical announcer starts in this op -/
+  pcs : List Nat := []
 
 def oracles (d0 d : DS) (cx : OpCtx) (mDone : List (Nat × String)) (mObs implObs : String) : List String :=
   let toks := words implObs
@@ -196,14 +245,33 @@ def oracles (d0 d : DS) (cx : OpCtx) (mDone : List (Nat × String)) (mObs implOb
     if iRtx > mRtx + allowance ∧ answeredAlive > 0 ∧ dropRtx implObs = dropRtx mObs then
       [s!"C15 answered-announce-retransmitted evidence=scheduled rtx={iRtx} unanswered={mRtx} answered-announces-with-live-context={answeredAlive}"]
     else []
-  let _ := d0
-  never ++ foreign ++ unexpected ++ stuck ++ wire ++ sched
+  let iPc := natList (kvStr toks "pc")
+  let notRetried := cx.pcs.filterMap fun r =>
+    if iPc.contains r then none else some s!"C16 announce-not-retried r={r}"
+  let pFirst := iRx.filterMap fun lab =>
+    match lab.splitOn ":" with
+    | [h, ev] =>
+      match ((h.drop 1).toString).splitOn "." with
+      | [rs, "1"] => if h.startsWith "a" ∧ parseNat! rs ≥ 100 then some (parseNat! rs, ev) else none
+      | _ => none
+    | _ => none
+  let discipline := pFirst.filterMap fun (r, ev) =>
+    if r = 100 ∧ ev ≠ "started" then some s!"C15 event-discipline first-announce ev={ev}"
+    else if r > 100 ∧ ev = "started" then some s!"C15 event-discipline started-again r={r}"
+    else if ev = "completed" ∧ d0.pCompletedSeen ≥ 1 then some s!"C15 event-discipline completed-again r={r}"
+    else none
+  never ++ foreign ++ unexpected ++ stuck ++ wire ++ sched ++ notRetried ++ discipline
 
-def finish (d0 d : DS) (cx : OpCtx) (mDone : List (Nat × String)) (rx : List String) (nt : Nat) (implObs : String) :
-    DS × String × List String :=
-  let mObs := render d mDone rx nt
+def finish (d0 d : DS) (cx : OpCtx) (mDone : List (Nat × String)) (rx : List String) (nt : Nat) (implObs : String)
+    (pcs0 : List Nat := []) : DS × String × List String :=
+  let (d, mDone, rx, pcs) := pSettle 4 d mDone rx pcs0
+  let cx := { cx with pcs := pcs }
+  let mObs := render d mDone rx nt ++ (if pcs.isEmpty then "" else " pc=" ++ ",".intercalate (pcs.map toString))
   let viol := if d.off then [] else oracles d0 d cx mDone mObs implObs
   let left := dropRtx implObs ≠ dropRtx mObs
+  let seen := ((commaList (kvStr (words implObs) "rx")).filter fun lab =>
+    lab.startsWith "a1" ∧ lab.endsWith ".1:completed" ∧ ((lab.drop 1).toString.splitOn ".").head?.any (fun x => parseNat! x ≥ 100)).length
+  let d := { d with pCompletedSeen := d.pCompletedSeen + seen }
   let d := if left ∨ viol.any (fun v => !v.startsWith "C15 answered-announce-retransmitted evidence=scheduled") then { d with off := true } else d
   (d, mObs, viol)
 
@@ -212,7 +280,7 @@ def step' (d : DS) (op implObs : String) : DS × String × List String :=
   match toks.head? with
   | some "ann" =>
     let r := kvNat toks "r"; let dd := kvNat toks "d"; let ev := kvStr toks "ev"
-    if (d.m.reqs r).isSome ∨ !evOK ev ∨ dd > 3 then (d, "bad-op", []) else
+    if (d.m.reqs r).isSome ∨ !evOK ev ∨ dd > 3 ∨ r ≥ 100 then (d, "bad-op", []) else
     let d0 := d
     let d := { d with evs := (r, ev) :: d.evs, dests := if d.dests.contains dd then d.dests else dd :: d.dests }
     let before := (lookupNat d.connTx dd).isSome
@@ -224,6 +292,7 @@ def step' (d : DS) (op implObs : String) : DS × String × List String :=
     finish d0 d { newConnects := if opens then [(dd, before)] else [] } done rx 0 implObs
   | some "cancel" =>
     let r := kvNat toks "r"
+    if r ≥ 100 then (d, "bad-op", []) else
     let d0 := d
     let tag := match d.m.reqs r with
       | some q =>
@@ -260,8 +329,39 @@ def step' (d : DS) (op implObs : String) : DS × String × List String :=
     finish d0 (addTag d "branch:wait-retransmissions") { answeredBefore := answeredBefore } done rx 0 implObs
   | some "close" =>
     let d0 := d
-    let (d, done, rx) := feed d [.close]
+    let pre : List In := if d.pState = 1 ∧ !d.m.closed then [.cancel d.pCur] else []
+    let d := if (d.pState = 1 ∨ d.pState = 2) ∧ !d.m.closed then { d with pState := 3 } else d
+    let (d, done, rx) := feed d (pre ++ [.close])
     finish d0 (addTag d "branch:close") {} done rx 0 implObs
+  | some "pstart" =>
+    let dd := kvNat toks "d"
+    if d.pState ≠ 0 ∨ dd > 3 ∨ d.m.closed then (d, "bad-op", []) else
+    let d0 := d
+    let d := { d with pT := kvNat toks "t", pD := dd, dests := if d.dests.contains dd then d.dests else dd :: d.dests }
+    let before := (lookupNat d.connTx dd).isSome
+    let opens := (d.m.conns dd).isNone
+    let (d, done, rx, r) := pCall d "started"
+    finish d0 (addTag d "branch:periodic") { newConnects := if opens then [(dd, before)] else [] } done rx 0 implObs [r]
+  | some "pcomplete" =>
+    if d.pState = 0 ∨ d.pState = 3 then (d, "bad-op", []) else
+    let curPending : Bool := decide (d.pState = 1) && (match d.m.reqs d.pCur with | some q => q.result.isNone | none => false)
+    let isOpener : Bool := curPending && (match d.m.conns d.pD with | some (.connecting _ o _) => decide (o = d.pCur) | _ => false)
+    if isOpener then (d, "bad-op", []) else
+    let d0 := d
+    if d.pDone then finish d0 d {} [] [] 0 implObs else
+    let (d, done, rx) := if curPending then feed d [.cancel d.pCur] else (d, [], [])
+    let d := if curPending then addTag d "branch:pcomplete-cancels-announce" else addTag d "branch:pcomplete-idle"
+    let opens := (d.m.conns d.pD).isNone
+    let before := (lookupNat d.connTx d.pD).isSome
+    let (d, done', rx', r) := pCall { d with pDone := true } "completed"
+    finish d0 d { newConnects := if opens then [(d.pD, before)] else [] } (done ++ done') (rx ++ rx') 0 implObs [r]
+  | some "pclose" =>
+    if d.pState = 0 ∨ d.pState = 3 then (d, "bad-op", []) else
+    let d0 := d
+    let curPending : Bool := decide (d.pState = 1) && (match d.m.reqs d.pCur with | some q => q.result.isNone | none => false)
+    let (d, done, rx) := if curPending then feed d [.cancel d.pCur] else (d, [], [])
+    let d := { d with pState := 3 }
+    finish d0 (addTag d "branch:pclose") {} done rx 0 implObs
   | _ => (d, "bad-op", [])
 
 def suite : Suite where
